@@ -47,6 +47,9 @@ func (m *model) readyOps(s *report.Sink) []listOp {
 				if _, ok := in.(*ssa.DebugRef); ok {
 					continue
 				}
+				if st, ok := in.(*ssa.Store); ok && st.Val == m.readyList && m.storedOnce(st.Addr) == m.readyList {
+					continue // kept in a local bookkeeping struct, written once: reads of that field resolve to the list
+				}
 				if s != nil {
 					s.Unk("S5", "ready list|escapes", m.ipos(in), "the ready list is used other than as receiver of a list method (or argument of a single-site helper); insertions can no longer be enumerated")
 				}
@@ -95,6 +98,9 @@ func (m *model) storesTo(f *types.Var) []access {
 // S5 admission, S6 dispatch-once, S27 dispatch gate.
 func (m *model) ruleAdmissionDispatch(s *report.Sink) {
 	ops := m.readyOps(s)
+	for _, l := range m.extraLists {
+		s.Bad("S5", "ready list|second list created in the loop", m.ipos(l), "a second list is created inside the scheduler loop: jobs queued on (or moved to) it are not the ones the dispatch considers")
+	}
 	inserts := 0
 	remStores := m.storesTo(m.sjRemaining)
 	for _, op := range ops {
@@ -224,7 +230,30 @@ func (m *model) ruleAdmissionDispatch(s *report.Sink) {
 		if root := m.rootSite(fc.(ssa.Instruction)); root.Parent() != m.fnLoop || !m.loopBlocks[root.Block()] {
 			okFront = false
 		}
-		isOngoing := func(v ssa.Value) bool { return m.cOngoing != nil && m.resolve(v) == ssa.Value(m.cOngoing) }
+		isOngoing := func(v ssa.Value) bool {
+			if m.cOngoing == nil || m.counterOf(v) != m.cOngoing {
+				return false
+			}
+			if m.cOngoing.phi != nil {
+				return true
+			}
+			// memory counter: the value compared must still be the cell's content at the select
+			_, ld := m.cellKey(m.resolve(v))
+			if ld == nil {
+				return false
+			}
+			if a.pred == nil {
+				return m.freshAt(m.cOngoing.cell, ld, m.sel)
+			}
+			// the fact holds for the paths entering the select block from a.pred: no store between the
+			// load and the end of that block, and none in the select block before the select itself
+			for _, st := range m.cellStores(m.cOngoing.cell) {
+				if st.Block() == m.sel.Block() && ssax.Before(st, m.sel) {
+					return false
+				}
+			}
+			return m.freshAt(m.cOngoing.cell, ld, a.pred.Instrs[len(a.pred.Instrs)-1])
+		}
 		isConc := func(v ssa.Value) bool { return m.isField(v, m.fConc) }
 		if find(atoms, func(x atom) bool { return less(x, isOngoing, isConc) }) == nil {
 			okGate = false
@@ -847,14 +876,19 @@ func (m *model) ruleLoopExits(s *report.Sink) {
 			if m.cPending == nil {
 				return false
 			}
-			ok, pol := eqInt(a, 0, func(v ssa.Value) bool {
-				return m.versions(m.cPending)[v] && m.current(m.cPending, v, a.cond.(ssa.Instruction).Block())
-			})
+			isCur := func(v ssa.Value) bool {
+				if m.cPending.phi != nil {
+					return m.versions(m.cPending.phi)[v] && m.current(m.cPending.phi, v, a.cond.(ssa.Instruction).Block())
+				}
+				k, ld := m.cellKey(m.resolve(v))
+				return k == m.cPending.cell && m.freshAt(k, ld, ret)
+			}
+			ok, pol := eqInt(a, 0, isCur)
 			if ok && pol {
 				return true
 			}
 			// pending <= 0 is the same fact for a counter that is never negative
-			if a.op == "<=" && a.pol && ssax.IsConstInt(a.bv, 0) && m.versions(m.cPending)[a.av] && m.current(m.cPending, a.av, a.cond.(ssa.Instruction).Block()) {
+			if a.op == "<=" && a.pol && ssax.IsConstInt(a.bv, 0) && isCur(a.av) {
 				return true
 			}
 			return false
@@ -1189,9 +1223,10 @@ func (m *model) isSentinelLoad(v ssa.Value) bool {
 // S25 conservation: path enumeration over the loop body with symbolic counter offsets.
 
 type pathState struct {
-	off  map[ssa.Value]int // value -> offset from its counter's header phi
-	ctr  map[ssa.Value]*ssa.Phi
-	list int // insertions - removals on the ready list so far
+	off  map[ssa.Value]int // value -> offset from its counter's value at the start of the iteration
+	ctr  map[ssa.Value]*counter
+	cell map[string]int // memory counters: cell key -> offset of the cell's current content
+	list int            // insertions - removals on the ready list so far
 	// symbolic part: a helper that returns exactly the number of elements it put on the ready list
 	// contributes its (unknown) result n once to the list and, where that result is added to or
 	// subtracted from a counter, +-n to that counter
@@ -1200,7 +1235,10 @@ type pathState struct {
 }
 
 func (p *pathState) clone() *pathState {
-	q := &pathState{off: map[ssa.Value]int{}, ctr: map[ssa.Value]*ssa.Phi{}, list: p.list, symList: map[ssa.Value]int{}, symOff: map[ssa.Value]map[ssa.Value]int{}}
+	q := &pathState{off: map[ssa.Value]int{}, ctr: map[ssa.Value]*counter{}, cell: map[string]int{}, list: p.list, symList: map[ssa.Value]int{}, symOff: map[ssa.Value]map[ssa.Value]int{}}
+	for k, v := range p.cell {
+		q.cell[k] = v
+	}
 	for k, v := range p.off {
 		q.off[k] = v
 	}
@@ -1231,13 +1269,19 @@ func (m *model) ruleConservation(s *report.Sink) {
 		s.Unk("S25", "loop|counters", m.pos(m.fnLoop.Pos()), m.counterErr)
 		return
 	}
-	counters := []*ssa.Phi{m.cPending, m.cOngoing, m.cWaiting}
-	sign := map[*ssa.Phi]int{m.cPending: 1, m.cOngoing: -1, m.cWaiting: -1}
+	counters := []*counter{m.cPending, m.cOngoing, m.cWaiting}
+	sign := map[*counter]int{m.cPending: 1, m.cOngoing: -1, m.cWaiting: -1}
+	cellCtr := map[string]*counter{}
 	res := &consResult{bad: map[string][]string{}, unk: map[string][]string{}, paths: map[string]int{}}
-	init := &pathState{off: map[ssa.Value]int{}, ctr: map[ssa.Value]*ssa.Phi{}, symList: map[ssa.Value]int{}, symOff: map[ssa.Value]map[ssa.Value]int{}}
+	init := &pathState{off: map[ssa.Value]int{}, ctr: map[ssa.Value]*counter{}, cell: map[string]int{}, symList: map[ssa.Value]int{}, symOff: map[ssa.Value]map[ssa.Value]int{}}
 	for _, c := range counters {
-		init.off[c] = 0
-		init.ctr[c] = c
+		if c.phi != nil {
+			init.off[c.phi] = 0
+			init.ctr[c.phi] = c
+		} else {
+			init.cell[c.cell] = 0
+			cellCtr[c.cell] = c
+		}
 	}
 	type frame struct {
 		b     *ssa.BasicBlock
@@ -1287,7 +1331,7 @@ func (m *model) ruleConservation(s *report.Sink) {
 		}
 		return total, ok
 	}
-	offsetOf := func(st *pathState, v ssa.Value) (*ssa.Phi, int, bool) {
+	offsetOf := func(st *pathState, v ssa.Value) (*counter, int, bool) {
 		if c, ok := st.ctr[v]; ok {
 			return c, st.off[v], true
 		}
@@ -1342,16 +1386,21 @@ func (m *model) ruleConservation(s *report.Sink) {
 		if b == m.header && pred != nil {
 			r := 0
 			for _, c := range counters {
+				if c.phi == nil {
+					// memory counter: what the cell holds now, relative to the start of the iteration
+					r += sign[c] * st.cell[c.cell]
+					continue
+				}
 				// the header phi's operand along this edge
 				var opnd ssa.Value
 				for k, p := range m.header.Preds {
 					if p == pred {
-						opnd = c.Edges[k]
+						opnd = c.phi.Edges[k]
 					}
 				}
 				cc, off, ok := offsetOf(st, opnd)
 				if !ok || cc != c {
-					res.unk[arm] = append(res.unk[arm], fmt.Sprintf("%s: counter %s is carried into the next iteration as something other than itself ± constant", m.bpos(pred), c.Comment))
+					res.unk[arm] = append(res.unk[arm], fmt.Sprintf("%s: counter %s is carried into the next iteration as something other than itself ± constant", m.bpos(pred), c.name))
 					return
 				}
 				r += sign[c] * off
@@ -1374,6 +1423,9 @@ func (m *model) ruleConservation(s *report.Sink) {
 		// inner loop header revisited: the iteration just walked must be balanced
 		if e, ok := entries[b]; ok && pred != nil {
 			r := -(st.list - e.list)
+			for k, c := range cellCtr {
+				r += sign[c] * (st.cell[k] - e.cell[k])
+			}
 			for _, in := range b.Instrs {
 				p, isPhi := in.(*ssa.Phi)
 				if !isPhi {
@@ -1406,6 +1458,24 @@ func (m *model) ruleConservation(s *report.Sink) {
 		}
 		for _, in := range b.Instrs {
 			switch x := in.(type) {
+			case *ssa.UnOp:
+				if x.Op == token.MUL && len(cellCtr) > 0 {
+					if c, ok := cellCtr[m.key(x.X)]; ok {
+						st.ctr[x] = c
+						st.off[x] = st.cell[c.cell]
+					}
+				}
+			case *ssa.Store:
+				if len(cellCtr) > 0 {
+					if c, ok := cellCtr[m.key(x.Addr)]; ok {
+						cc, off, ok := offsetOf(st, x.Val)
+						if !ok || cc != c {
+							res.unk[arm] = append(res.unk[arm], fmt.Sprintf("%s: counter %s is assigned something other than itself ± constant", m.ipos(x), c.name))
+							return
+						}
+						st.cell[c.cell] = off
+					}
+				}
 			case *ssa.BinOp:
 				if c, off, ok := offsetOf(st, x.X); ok && (x.Op == token.ADD || x.Op == token.SUB) {
 					if k, isC := x.Y.(*ssa.Const); isC && k.Value != nil {
@@ -1502,12 +1572,23 @@ func (m *model) ruleConservation(s *report.Sink) {
 	// base case: counters start at 0
 	for _, c := range counters {
 		init0 := true
-		for k, e := range c.Edges {
-			if !m.loopBlocks[m.header.Preds[k]] && !ssax.IsConstInt(e, 0) {
-				init0 = false
+		pos := m.bpos(m.header)
+		if c.phi != nil {
+			pos = m.ipos(c.phi)
+			for k, e := range c.phi.Edges {
+				if !m.loopBlocks[m.header.Preds[k]] && !ssax.IsConstInt(e, 0) {
+					init0 = false
+				}
+			}
+		} else {
+			// memory counter: every store before the loop stores 0 (the zero value of a fresh struct counts)
+			for _, st := range m.cellStores(c.cell) {
+				if st.Parent() == m.fnLoop && !m.loopBlocks[st.Block()] && !ssax.IsConstInt(st.Val, 0) {
+					init0 = false
+				}
 			}
 		}
-		s.Check(init0, "S25", "loop|counter "+c.Comment+" starts at 0", m.ipos(c), "base case of the invariant", "counter is not initialised to 0 before the loop")
+		s.Check(init0, "S25", "loop|counter "+c.name+" starts at 0", pos, "base case of the invariant", "counter is not initialised to 0 before the loop")
 	}
 	// the list starts empty: list.New() before the loop, no operation before the header
 	pre := 0
@@ -1699,8 +1780,11 @@ func (m *model) ruleState(s *report.Sink) {
 		s.Unk("S26", "State|construction", pos, err.Error())
 		return
 	}
-	s.Check(m.headerPhi(vals["Pending"]) == m.cPending, "S26", "State.Pending <- pending", pos, "", "Pending is not the pending counter")
-	s.Check(m.headerPhi(vals["Waiting"]) == m.cWaiting && m.cWaiting != m.cPending && m.cWaiting != m.cOngoing && m.cPending != m.cOngoing, "S26", "State.Waiting <- waiting", pos, "", "Waiting is not a counter distinct from pending/ongoing")
+	distinct := func(a, b *counter) bool {
+		return a != b && (a.phi == nil || a.phi != b.phi) && (a.cell == "" || a.cell != b.cell)
+	}
+	s.Check(vals["Pending"] != nil && m.counterOf(vals["Pending"]) == m.cPending, "S26", "State.Pending <- pending", pos, "", "Pending is not the pending counter")
+	s.Check(vals["Waiting"] != nil && m.counterOf(vals["Waiting"]) == m.cWaiting && distinct(m.cWaiting, m.cPending) && distinct(m.cWaiting, m.cOngoing) && distinct(m.cPending, m.cOngoing), "S26", "State.Waiting <- waiting", pos, "", "Waiting is not a counter distinct from pending/ongoing")
 	rl := false
 	if c, ok := m.resolve(vals["Ready"]).(*ssa.Call); ok {
 		if recv, name, _, ok := listCall(c); ok && name == "Len" && m.isReadyList(recv) {
@@ -1764,7 +1848,7 @@ func (m *model) isIdle(v ssa.Value, depth int) bool {
 	v = m.resolve(v)
 	switch x := v.(type) {
 	case *ssa.BinOp:
-		return x.Op == token.SUB && m.isConcField(x.X) && m.headerPhi(x.Y) == m.cOngoing
+		return x.Op == token.SUB && m.isConcField(x.X) && m.counterOf(x.Y) == m.cOngoing && m.cOngoing != nil
 	case *ssa.Phi:
 		// clamp: phi[diff, 0] where the 0 edge is taken under diff < 0
 		nDiff := 0
@@ -1857,7 +1941,7 @@ func (m *model) isIdleIn(v ssa.Value, bind map[*ssa.Parameter]ssa.Value, depth i
 	v = ssax.Unspill(v)
 	switch x := v.(type) {
 	case *ssa.BinOp:
-		return x.Op == token.SUB && m.isConcField(sub(x.X)) && m.headerPhi(sub(x.Y)) == m.cOngoing
+		return x.Op == token.SUB && m.isConcField(sub(x.X)) && m.counterOf(sub(x.Y)) == m.cOngoing && m.cOngoing != nil
 	case *ssa.Phi:
 		nDiff := 0
 		for k, e := range x.Edges {
